@@ -162,7 +162,7 @@ func init() {
 		ID: "C14", Level: "model_checking",
 		Rule: "states = canonical well-formed timelines (ordered by start, non-decreasing ends); transitions = the real ForceDuration(d, filler) on a fresh real list compared with the property sentence written as a list comprehension (removed / shortened / untouched cues, filler [d-1ms,d) only when requested and needed, identical list when it already lasts d); plus: a filler edited by the caller does not show in the filler of a later call; non-trivial = the list changed",
 		Scope: map[core.Tier]string{
-			core.Quick:    "all timelines of <=3 cues on 0..5 (gaps, abutting, overlapping, zero-length; two texts) x d in 1..7 grid steps (before the first cue, inside, in a gap, on a boundary, beyond) and d+-1ms, d+-1ns, d+0.5ms x filler in {false,true} x units {1ms,1s}",
+			core.Quick:    "all timelines of <=3 cues on 0..5 (gaps, abutting, overlapping, zero-length; two texts) x d in 1..7 grid steps (before the first cue, inside, in a gap, on a boundary, beyond) and d+-1ms, d+-1ns, d+0.5ms x filler in {false,true} x units {1ms,1s}; unit 300 us",
 			core.Thorough: "<=4 cues, units {1ms,1s,1h+1ms}",
 		},
 		Assumptions: []string{"Go toolchain and standard library", "list ordered by start with non-decreasing ends, d >= 1ms (property preconditions)", "reference model refops.ForceDuration"},
